@@ -1,3 +1,4 @@
+#![feature(allocator_api)]
 // unit `ensure` — C11: applicability checks of external equivalence (the ensure_* methods that fit Verus' subset)
 use vstd::prelude::*;
 use vstd::std_specs::iter::IteratorSpec;
@@ -177,6 +178,76 @@ impl ExternalEquivalenceTask {
 //@         forall|i: int| 0 <= i < it.index@ ==> names@.contains(#[trigger] ps[i].name),
 //@         forall|x: String| names@.contains(x) ==> exists|i: int| 0 <= i < it.index@ && #[trigger] ps[i].name == x,
 //@end
+}
+
+// ---- C11: the checks are made, with the right arguments, before anything is emitted --------------------------
+// The block of ensure_* calls of ExternalEquivalenceTask::decompose is extracted as a statement fragment (D9); the checks
+// themselves are replaced by stand-ins that only record WHICH check was applied to WHICH arguments.
+// T12. Vec::extend appends (the appended elements are irrelevant to the claims of this unit)
+pub assume_specification<T, A: std::alloc::Allocator, I: std::iter::IntoIterator<Item = T>>[ <std::vec::Vec<T, A> as std::iter::Extend<T>>::extend ](v: &mut std::vec::Vec<T, A>, it: I)
+    ensures true;
+
+pub struct ChecksTask {
+    pub specification: Either<asp::Program, Specification>,
+    pub program: asp::Program,
+    pub user_guide: UserGuide,
+}
+pub type CheckResult = Result<(), ExternalEquivalenceTaskWarning, ExternalEquivalenceTaskError>;
+pub uninterp spec fn chk_disjoint(t: ChecksTask) -> bool;
+pub uninterp spec fn chk_tight(t: ChecksTask, p: asp::Program) -> bool;
+pub uninterp spec fn chk_no_private_recursion(t: ChecksTask, p: asp::Program, private: Seq<Predicate>) -> bool;
+pub uninterp spec fn chk_heads_no_input(t: ChecksTask, p: asp::Program) -> bool;
+pub uninterp spec fn chk_placeholders(t: ChecksTask) -> bool;
+pub uninterp spec fn chk_assumptions_input_only(t: ChecksTask, extra: Seq<Predicate>, fs: Seq<AnnotatedFormula>) -> bool;
+pub uninterp spec fn chk_spec_assumptions_no_output(t: ChecksTask, s: Specification) -> bool;
+pub uninterp spec fn chk_roles(t: ChecksTask, fs: Seq<AnnotatedFormula>) -> bool;
+pub uninterp spec fn spec_ug_formulas(u: UserGuide) -> Seq<AnnotatedFormula>;
+
+impl UserGuide {
+    #[verifier::external_body]
+    pub fn formulas(&self) -> (r: Vec<AnnotatedFormula>) ensures r@ == spec_ug_formulas(*self) { unimplemented!() }
+}
+impl ChecksTask {
+    #[verifier::external_body]
+    fn ensure_input_and_output_predicates_are_disjoint(&self) -> (r: CheckResult) ensures r is Ok <==> chk_disjoint(*self) { unimplemented!() }
+    #[verifier::external_body]
+    fn ensure_program_tightness(&self, program: &asp::Program) -> (r: CheckResult) ensures r is Ok <==> chk_tight(*self, *program) { unimplemented!() }
+    #[verifier::external_body]
+    fn ensure_absence_of_private_recursion(&self, program: &asp::Program, private_predicates: &IndexSet<Predicate>) -> (r: CheckResult)
+        ensures r is Ok <==> chk_no_private_recursion(*self, *program, private_predicates@) { unimplemented!() }
+    #[verifier::external_body]
+    fn ensure_rule_heads_do_not_contain_input_predicates(&self, program: &asp::Program) -> (r: CheckResult) ensures r is Ok <==> chk_heads_no_input(*self, *program) { unimplemented!() }
+    #[verifier::external_body]
+    fn ensure_placeholder_name_uniqueness(&self) -> (r: CheckResult) ensures r is Ok <==> chk_placeholders(*self) { unimplemented!() }
+    #[verifier::external_body]
+    fn ensure_assumptions_only_contain_input_symbols(&self, program_input_symbols: &IndexSet<Predicate>, formulas: &Vec<AnnotatedFormula>) -> (r: CheckResult)
+        ensures r is Ok <==> chk_assumptions_input_only(*self, program_input_symbols@, formulas@) { unimplemented!() }
+    #[verifier::external_body]
+    fn ensure_specification_assumptions_do_not_contain_output_predicates(&self, specification: &Specification) -> (r: CheckResult)
+        ensures r is Ok <==> chk_spec_assumptions_no_output(*self, *specification) { unimplemented!() }
+    #[verifier::external_body]
+    fn ensure_specification_roles_are_supported(&self, formulas: &Vec<AnnotatedFormula>) -> (r: CheckResult) ensures r is Ok <==> chk_roles(*self, formulas@) { unimplemented!() }
+
+    /// C11: if the block of checks lets the task through, every documented condition was checked on the right object:
+    /// both programs tight (modulo bypass, inside the check) and free of private recursion w.r.t. THEIR OWN private predicates, no input predicate in a head, ...
+    fn checks_block(self, specification_private_predicates: IndexSet<Predicate>, program_private_predicates: IndexSet<Predicate>, warnings: Vec<ExternalEquivalenceTaskWarning>) -> (res: std::result::Result<(), ExternalEquivalenceTaskError>)
+        ensures res is Ok ==> {
+            &&& chk_disjoint(self) && chk_tight(self, self.program) && chk_no_private_recursion(self, self.program, program_private_predicates@)
+            &&& chk_heads_no_input(self, self.program) && chk_placeholders(self)
+            &&& chk_assumptions_input_only(self, Seq::empty(), spec_ug_formulas(self.user_guide))
+            &&& match self.specification {
+                    Either::Left(p) => chk_tight(self, p) && chk_no_private_recursion(self, p, specification_private_predicates@) && chk_heads_no_input(self, p),
+                    Either::Right(sp) => chk_spec_assumptions_no_output(self, sp) && chk_assumptions_input_only(self, program_private_predicates@, sp.formulas@) && chk_roles(self, sp.formulas@),
+                }
+        },
+    {
+        let mut warnings = warnings;
+//@stmts src/verifying/task/external_equivalence.rs :: impl Task for ExternalEquivalenceTask :: fn decompose
+//@ .from "self.ensure_input_and_output_predicates_are_disjoint()?;"
+//@ .until "fn head_predicate"
+//@end
+        Ok(())
+    }
 }
 
 } // verus!
